@@ -20,6 +20,12 @@ initialX, minX, maxX, tolerance, convergenceLimit float64, maxIterations int) (x
 
 		halvingX := maxX - (maxX-minX)*0.5
 		bisectionX := maxX - (maxX-minX)*maxDelta/(maxDelta-minDelta)
+		// the secant point lies in [minX,maxX]; rounding must not carry it outside
+		if bisectionX < minX {
+			bisectionX = minX
+		} else if bisectionX > maxX {
+			bisectionX = maxX
+		}
 
 		trialXs = append(trialXs, halvingX, bisectionX)
 
